@@ -472,6 +472,25 @@ func (v *Verifier) applyContractNamed(s *State, fc *FuncContract, sig *types.Sig
 	for _, c := range fc.Clauses {
 		if c.Kind == "requires" && !c.IsLoop {
 			if c.heldLock != nil {
+				// the caller must hold the lock the callee's contract assumes held
+				held := False
+				func() {
+					defer func() {
+						if r := recover(); r != nil {
+							if _, ok := r.(abortExec); !ok {
+								panic(r)
+							}
+						}
+					}()
+					a := ev.evalAddr(c.heldLock)
+					key, _, _, _ := v.lockKey(a)
+					for _, h := range s.held {
+						if h.key == key {
+							held = True
+						}
+					}
+				}()
+				v.addOb(s, "pre", pos, held, name+" requires "+c.Text, c.Props)
 				continue
 			}
 			v.addOb(s, "pre", pos, ev.boolExpr(c.Expr), name+" requires "+c.Text, c.Props)
@@ -602,6 +621,11 @@ func (v *Verifier) applyContractNamed(s *State, fc *FuncContract, sig *types.Sig
 			if len(c.Props) > 0 && (fc.Trusted || ifaceRecv) && !hasProp(c.Props, curProp) {
 				continue
 			}
+			// a postcondition that talks about locals of the callee (what the body did with them) is proved in the
+			// callee's body; a caller learns nothing from it
+			if mentionsCalleeLocal(c.Expr, calleeFn, env) {
+				continue
+			}
 			s.assume(ev2.boolExpr(c.Expr))
 		}
 	}
@@ -612,6 +636,58 @@ func (v *Verifier) applyContractNamed(s *State, fc *FuncContract, sig *types.Sig
 		v.cover(s, "state after the call of "+name+" in \""+trunc(txt, 60)+"\"")
 	}
 	return res
+}
+
+// mentionsCalleeLocal: e uses a name that is a local variable of fn (and neither a parameter nor a result bound in env).
+func mentionsCalleeLocal(e *Expr, fn *ssa.Function, env map[string]*Value) bool {
+	if fn == nil || fn.Blocks == nil || e == nil {
+		return false
+	}
+	locals := map[string]bool{}
+	for _, b := range fn.Blocks {
+		for _, ins := range b.Instrs {
+			if a, ok := ins.(*ssa.Alloc); ok && a.Comment != "" {
+				locals[a.Comment] = true
+			}
+		}
+	}
+	for _, p := range fn.Params {
+		delete(locals, p.Name())
+	}
+	if rs := fn.Signature.Results(); rs != nil {
+		for i := 0; i < rs.Len(); i++ {
+			delete(locals, rs.At(i).Name())
+		}
+	}
+	var has func(e *Expr, bound map[string]bool) bool
+	has = func(e *Expr, bound map[string]bool) bool {
+		if e == nil {
+			return false
+		}
+		if e.Op == "id" {
+			if _, ok := env[e.Name]; ok || bound[e.Name] {
+				return false
+			}
+			return locals[e.Name]
+		}
+		if e.Op == "forall" || e.Op == "exists" {
+			nb := map[string]bool{e.Name: true}
+			for k := range bound {
+				nb[k] = true
+			}
+			bound = nb
+		}
+		for i, a := range e.Args {
+			if e.Op == "call" && i == 0 && false {
+				continue
+			}
+			if has(a, bound) {
+				return true
+			}
+		}
+		return false
+	}
+	return has(e, map[string]bool{})
 }
 
 // contractMentionsLocked: some ensures clause of fc uses locked(...).
